@@ -205,3 +205,127 @@ Example wf_examples :
   /\ term_eqb (LitLang [2] [69;78]) (LitLang [2] [101;110]) = true
   /\ term_cmp (LitLang [2] [69;78]) (LitLang [2] [101;110]) = Eq.
 Proof. split; [simpl; repeat split; discriminate | split; vm_compute; reflexivity]. Qed.
+
+(* ===================== accessors, components, constructors (widened harness) ===================== *)
+
+Theorem term_same_spec a : forall b, term_same a b = true <-> a = b.
+Proof.
+  induction a as [s|s|l d|l t|s IHs p IHp o IHo|s]; intros [s'|s'|l' d'|l' t'|s' p' o'|s'];
+    simpl; try (split; congruence); try (rewrite str_eqb_eq; split; congruence).
+  - rewrite andb_true_iff, !str_eqb_eq. split; [intros [-> ->]; reflexivity | intros E; injection E; auto].
+  - rewrite andb_true_iff, !str_eqb_eq. split; [intros [-> ->]; reflexivity | intros E; injection E; auto].
+  - rewrite !andb_true_iff, IHs, IHp, IHo.
+    split; [intros [[-> ->] ->]; reflexivity | intros E; injection E; auto].
+Qed.
+
+(* a term spelled the same is an equal term (so it hashes and compares the same, by the theorems above) *)
+Theorem term_same_eqb a b : term_same a b = true -> term_eqb a b = true.
+Proof. intros H. apply term_same_spec in H. subst. apply term_eqb_refl. Qed.
+
+Lemma opt_str_eqb_refl o : opt_eqb str_eqb o o = true.
+Proof. destruct o; simpl; auto using str_eqb_refl. Qed.
+
+Theorem tview_ok_self t :
+  tview_ok t (kind_rank (kind_of t)) (t_is_atom t) (acc_iri t) (acc_bnode t) (acc_lex t) (acc_dt t)
+           (acc_tag t) (acc_var t) = true.
+Proof. unfold tview_ok. rewrite N.eqb_refl, eqb_reflx, !opt_str_eqb_refl. reflexivity. Qed.
+
+(* Term::eq on atoms depends on the accessors only: the default implementation, transcribed over
+   the accessor view, is the model's equality *)
+Theorem eq_via_accessors a b : t_is_atom a = true -> term_eqb a b = eq_acc a b.
+Proof.
+  destruct a, b; intros H; try discriminate H; cbn; rewrite ?andb_false_r; reflexivity.
+Qed.
+
+(* an atom is determined by what its accessors return *)
+Theorem atom_view_inj a b :
+  t_is_atom a = true -> t_is_atom b = true -> kind_of a = kind_of b ->
+  acc_iri a = acc_iri b -> acc_bnode a = acc_bnode b -> acc_var a = acc_var b ->
+  acc_lex a = acc_lex b -> acc_dt a = acc_dt b -> acc_tag a = acc_tag b -> a = b.
+Proof. destruct a, b; simpl; intros; try discriminate; congruence. Qed.
+
+(* atoms = the atomic constituents, in the same order *)
+Theorem atoms_filter t : t_atoms t = filter t_is_atom (t_constituents t).
+Proof.
+  induction t as [s|s|l d|l g|s IHs p IHp o IHo|s]; simpl; try reflexivity.
+  rewrite !filter_app, <- IHs, <- IHp, <- IHo. reflexivity.
+Qed.
+
+Theorem atoms_atomic t : forallb t_is_atom (t_atoms t) = true.
+Proof.
+  induction t as [s|s|l d|l g|s IHs p IHp o IHo|s]; simpl; try reflexivity.
+  rewrite !forallb_app, IHs, IHp, IHo. reflexivity.
+Qed.
+
+Lemma constituents_nonempty t : (1 <= length (t_constituents t))%nat.
+Proof. destruct t; simpl; lia. Qed.
+
+(* a quoted triple has at least 4 constituents and 3 atoms; an atom exactly one of each *)
+Theorem constituents_count t :
+  if t_is_atom t then t_constituents t = [t] /\ t_atoms t = [t]
+  else (4 <= length (t_constituents t))%nat /\ (3 <= length (t_atoms t))%nat.
+Proof.
+  destruct t as [s|s|l d|l g|s p o|s]; simpl; auto.
+  rewrite !app_length. split.
+  - pose proof (constituents_nonempty s). pose proof (constituents_nonempty p).
+    pose proof (constituents_nonempty o). lia.
+  - assert (H : forall x, (1 <= length (t_atoms x))%nat).
+    { induction x; simpl; try lia. rewrite !app_length. lia. }
+    pose proof (H s). pose proof (H p). pose proof (H o). lia.
+Qed.
+
+Lemma list_eqb_app {A} (f : A -> A -> bool) a1 : forall b1 a2 b2,
+  list_eqb f a1 b1 = true -> list_eqb f a2 b2 = true -> list_eqb f (a1 ++ a2) (b1 ++ b2) = true.
+Proof.
+  induction a1 as [|x a1 IH]; intros [|y b1] a2 b2; simpl; try discriminate; auto.
+  intros H1 H2. apply andb_true_iff in H1 as [-> H1]. simpl. auto.
+Qed.
+
+(* equal terms have pairwise equal atoms and constituents *)
+Theorem eq_atoms a : forall b, term_eqb a b = true -> list_eqb term_eqb (t_atoms a) (t_atoms b) = true.
+Proof.
+  induction a as [s|s|l d|l g|s IHs p IHp o IHo|s]; intros [s'|s'|l' d'|l' g'|s' p' o'|s'];
+    simpl; try discriminate; try (intros ->; reflexivity).
+  intros H. apply andb_true_iff in H as [H Ho]. apply andb_true_iff in H as [Hs Hp].
+  apply list_eqb_app; [auto|]. apply list_eqb_app; auto.
+Qed.
+
+Theorem eq_constituents a : forall b,
+  term_eqb a b = true -> list_eqb term_eqb (t_constituents a) (t_constituents b) = true.
+Proof.
+  induction a as [s|s|l d|l g|s IHs p IHp o IHo|s]; intros [s'|s'|l' d'|l' g'|s' p' o'|s'];
+    simpl; try discriminate; try (intros ->; reflexivity).
+  intros H. rewrite H. simpl.
+  apply andb_true_iff in H as [H Ho]. apply andb_true_iff in H as [Hs Hp].
+  apply list_eqb_app; [auto|]. apply list_eqb_app; auto.
+Qed.
+
+(* ... and pairwise equal components *)
+Theorem eq_to_triple a b : term_eqb a b = true ->
+  match t_to_triple a, t_to_triple b with
+  | Some (s, p, o), Some (s', p', o') => term_eqb s s' && term_eqb p p' && term_eqb o o' = true
+  | None, None => True
+  | _, _ => False
+  end.
+Proof. destruct a, b; simpl; try discriminate; auto. Qed.
+
+Theorem built_ok_eq t obs : built_ok t obs = true -> forallb (term_eqb t) obs = true.
+Proof.
+  unfold built_ok. induction obs as [|x obs IH]; simpl; auto.
+  intros H. apply andb_true_iff in H as [H1 H2]. rewrite (term_same_eqb _ _ H1). simpl. auto.
+Qed.
+
+(* `lex * ns_term` is equal to a typed literal exactly when NsTerm::eq accepts its datatype *)
+Theorem ns_lit_eq ns sfx lex lex' other :
+  term_eqb (ns_lit ns sfx lex) (LitDt lex' other) = str_eqb lex lex' && ns_iri_eqb ns sfx other.
+Proof. unfold ns_lit. simpl. rewrite ns_term_eq_is_default. reflexivity. Qed.
+
+(* graph names: an equivalence relation; the default graph is equal to itself only *)
+Theorem gname_eqb_refl a : gname_eqb a a = true.
+Proof. destruct a; simpl; auto using term_eqb_refl. Qed.
+Theorem gname_eqb_sym a b : gname_eqb a b = gname_eqb b a.
+Proof. destruct a, b; simpl; auto using term_eqb_sym. Qed.
+Theorem gname_eqb_trans a b c : gname_eqb a b = true -> gname_eqb b c = true -> gname_eqb a c = true.
+Proof. destruct a, b, c; simpl; try discriminate; eauto using term_eqb_trans. Qed.
+Theorem gname_default a : gname_eqb None a = true <-> a = None.
+Proof. destruct a; simpl; split; congruence. Qed.
